@@ -434,6 +434,88 @@ def run_histories(S, tier):
         shutil.rmtree(root, ignore_errors=True)
 
 
+def run_same_dir_histories(S, tier):
+    """Every sequence (length <= 2, thorough 3) of generations into ONE output directory at ONE path, by one manager in one
+    process, with a 'wipe' op (the user deletes the directory's contents) in the alphabet: after each accepted call the
+    directory holds exactly the returned files with the returned contents - whatever was written to those paths before."""
+    import itertools
+    import json
+    from fcp.codegen import GeneratorManager
+    from fcp.verifier import make_general_verifier
+    from fcp.parser import get_fcp_from_string
+    from fcp.error import Logger
+
+    texts = {"good": GOOD["can1"], "good2": GOOD["svc"], "enums2": GOOD["enums2"]}
+    ops = [("dbc", "good"), ("dbc", "good2"), ("can_c", "good"), ("can_c", "enums2"), ("cpp", "good"), ("cpp", "good2"), ("wipe", "")]
+    depth = 2 if tier == "quick" else 3
+    root = tempfile.mkdtemp(prefix="fcpmc-c10s-")
+    out = os.path.join(root, "out")
+    try:
+        want = {}
+        for g, sn in ops:
+            if g != "wipe":
+                want[(g, sn)] = expected_files(g, texts[sn], root)
+        seqs = [q for n in range(1, depth + 1) for q in itertools.product(ops, repeat=n) if q[-1][0] != "wipe" and q[0][0] != "wipe"]
+        for seq in seqs:
+            S.count("states")
+            S.count("executions")
+            S.count("histories")
+            S.add("nontrivial", ("same-dir", seq))
+            shutil.rmtree(out, ignore_errors=True)
+            os.makedirs(out)
+            rd, wr = os.pipe()
+            pid = os.fork()
+            if pid == 0:
+                res = {"bad": None}
+                try:
+                    os.close(rd)
+                    mgr = GeneratorManager(make_general_verifier())
+                    for k, (g, sn) in enumerate(seq):
+                        if g == "wipe":
+                            for fn in os.listdir(out):
+                                pth = os.path.join(out, fn)
+                                shutil.rmtree(pth) if os.path.isdir(pth) else os.remove(pth)
+                            continue
+                        with contextlib.redirect_stdout(io.StringIO()):
+                            r = mgr.generate(g, None, None, get_fcp_from_string(texts[sn], Logger({})).unwrap(), out)
+                        if not r.is_ok():
+                            res["bad"] = {"step": k, "verdict": "err"}
+                            break
+                        got = {}
+                        for fn in want[(g, sn)]:
+                            pth = os.path.join(out, fn)
+                            if os.path.exists(pth):
+                                got[fn] = mask(open(pth, errors="replace", newline="").read())
+                        if got != want[(g, sn)]:
+                            res["bad"] = {"step": k, "missing": sorted(set(want[(g, sn)]) - set(got)), "differing": sorted(fn for fn in got if got[fn] != want[(g, sn)][fn])}
+                            break
+                except Exception as e:  # noqa
+                    res["bad"] = {"exception": "%s: %s" % (type(e).__name__, str(e)[:200])}
+                finally:
+                    try:
+                        os.write(wr, json.dumps(res).encode())
+                    finally:
+                        os._exit(0)
+            os.close(wr)
+            buf = b""
+            while True:
+                c = os.read(rd, 65536)
+                if not c:
+                    break
+                buf += c
+            os.close(rd)
+            os.waitpid(pid, 0)
+            res = json.loads(buf.decode() or '{"bad": {"exception": "child died"}}')
+            S.count("transitions", len(seq))
+            if res["bad"] is None:
+                S.add("outcomes", ("same-dir", "ok"))
+            else:
+                S.add("outcomes", ("same-dir", "differs"))
+                S.violation("C10.accept", "C10.accept/written-files-differ/%s/after-earlier-generations-into-the-same-directory" % seq[-1][0] if res["bad"].get("step") == len(seq) - 1 else "C10.accept/written-files-differ/%s/same-directory-history" % seq[res["bad"].get("step", 0)][0], {"ops": ["%s:%s" % o for o in seq], "texts": texts}, expected="exactly the returned files after every accepted call", actual=res["bad"])
+    finally:
+        shutil.rmtree(root, ignore_errors=True)
+
+
 def run_cli(S, tier):
     for gen_name in ("dbc", "can_c"):
         for sname, text, reject in (("can1", GOOD["can1"], False), ("dup-field-middle", BAD["dup-field-middle"], True), ("plugin", list(BAD_PLUGIN[gen_name].values())[0], True), ("syntax", 'version: "3"\nstruct A { x @0 u8, }\n', True)):
@@ -491,6 +573,7 @@ def run(tier):
     for s in pmap(make_worker(tier), chunks(items, 12)):
         r.stats.merge(s)
     run_histories(r.stats, tier)
+    run_same_dir_histories(r.stats, tier)
     run_cli(r.stats, tier)
     r.rule = (
         "states = (generator, schema, pre-existing output directory state, fault point): for each generator and well-formed schema EVERY check evaluation of the verification run (general and plug-in, "
